@@ -33,7 +33,7 @@ impl<'a, E: Elem> GIter1<'a, E> {
             Ok(it) => {
                 cx.cov(&[OpKind::IntoIter as u64, n as u64]);
                 let model: VecDeque<u32> = infra(|| ids.into_iter().collect());
-                self.put_it(cx, ItObj { it, model, front: 0 })
+                self.put_it(cx, ItObj { it, model, front: 0, deferred: infra(Vec::new), deferred_anon: 0 })
             }
             Err(p) => on_panic(cx, "into_iter", p),
         }
@@ -78,17 +78,28 @@ impl<'a, E: Elem> GIter1<'a, E> {
             cx.probe("nth/nth_back with n >= len");
         }
         let io = &mut self.its[i];
+        let anon_dropped_before = ledger::zt_balance().1;
         let r = with_it!(&mut io.it; it, N => { let _ = N::USIZE; lib(|| if back { it.nth_back(n) } else { it.nth(n) }) });
+        let anon_dropped = ledger::zt_balance().1 - anon_dropped_before;
         match r {
             Ok(got) => {
                 let skip = n.min(len);
                 for _ in 0..skip {
-                    if back {
-                        io.model.pop_back();
+                    let gone = if back {
+                        io.model.pop_back()
                     } else {
-                        io.model.pop_front();
                         io.front += 1;
+                        io.model.pop_front()
+                    };
+                    // a skipped element that is still live may be released lazily by the iterator
+                    if let Some(id) = gone {
+                        if E::HAS_ID && ledger::is_live(id) {
+                            infra(|| io.deferred.push(id));
+                        }
                     }
+                }
+                if !E::HAS_ID && E::TRACKED {
+                    io.deferred_anon += (skip as u64).saturating_sub(anon_dropped);
                 }
                 let want = if back { io.model.pop_back() } else { io.model.pop_front() };
                 if !back && want.is_some() {
